@@ -109,11 +109,19 @@ def mkds(d, shape, perm=None):
     return Dataset(np.int64(v[0]), np.int64(e[0])) if d.get('int') else Dataset(np.float64(v[0]), np.float64(e[0]))
 
 
+_FLAGS = {}
+
+
 def evaluate(ref, dss, alpha, ignore):
     import numpy as np
     from valjean.gavroche.stat_tests.chi2 import TestChi2
     test = TestChi2(ref, *dss, name='c', alpha=alpha, ignore_empty=ignore)
     res = test.evaluate()
+    # the same test object evaluated once more gives the same result
+    res2 = test.evaluate()
+    _FLAGS['same_object_again'] = (_FLAGS.get('same_object_again', True) and bool(res2) == bool(res)
+                                   and [bits(x) for x in res2.chi2] == [bits(x) for x in res.chi2]
+                                   and [bits(x) for x in res2.pvalue] == [bits(x) for x in res.pvalue])
     return {'chi2': [bits(x) for x in res.chi2], 'ndf': [int(n) for n in test.ndf],
             'p': [bits(x) for x in res.pvalue], 'oracles': [bool(x) for x in np.asarray(res.oracles()).flatten()],
             'verdict': bool(res),
@@ -129,6 +137,7 @@ def run_impl(case, run):
     warnings.simplefilter('ignore')
     np.seterr(all='ignore')
     out = {}
+    _FLAGS.clear()
     try:
         shape = case['shape']
         ref = mkds(case['ref'], shape)
@@ -138,6 +147,7 @@ def run_impl(case, run):
         out['inputs_unchanged'] = snap == [(np.asarray(d.value).tobytes(), np.asarray(d.error).tobytes()) for d in [ref] + dss]
         out['permuted'] = evaluate(mkds(case['ref'], shape, case['perm']), [mkds(d, shape, case['perm']) for d in case['dss']],
                                    case['alpha'], case['ignore'])
+        out['same_object_again'] = _FLAGS.get('same_object_again', True)
         from scipy.stats import chi2 as law
         out['law'] = {'sf_nan': bits(law.sf(float('nan'), 3)),
                       'recomputed': [bits(law.sf(unbits(c), n)) for c, n in zip(out['chi2'], out['ndf'])]}
@@ -183,6 +193,8 @@ def oracle(case, impl, run):
     run.count(f"ignore_empty={case['ignore']}")
     if 'exception' in impl:
         return [('no_exception', impl['exception'])]
+    if impl.get('same_object_again') is False:
+        fails.append(('history_independent', 'a second evaluate() on the same test object gives another result'))
     alpha = case['alpha']
     ref_v = [unbits(x) for x in case['ref']['v']]
     ref_e = [unbits(x) for x in case['ref']['e']]
